@@ -4,6 +4,7 @@ import Driver.ArithOps
 import Driver.TypesCodec
 import Driver.BristolOps
 import Driver.ScanOps
+import Driver.AstCodec
 /-! gvdriver — the model side of the correspondence checks: one JSON case per line on stdin,
 one JSON result per line on stdout. Imports models only (no proofs, no Mathlib). -/
 open Lean GVD
@@ -21,6 +22,7 @@ def handle (case : Json) : Json :=
   | "bristol_import" => bristolImport case
   | "scan" => scanOp case
   | "render" => renderOp case
+  | "src_eval" => srcEval case
   | op => Json.mkObj [("error", s!"unknown op {op}")]
 
 partial def loop (h : IO.FS.Stream) (out : IO.FS.Stream) : IO Unit := do
